@@ -18,7 +18,8 @@ WORLDT = {"keys": ["a", "b", "c", "d", "s"], "init": 1, "authors": ["a", "b", "c
 
 # (cfg, world, label, adoption reachable within the bound)
 QUICK = [("MCIdentity_q.cfg", WORLD4, "4 delegates + stranger, <=3 changes, 1 action each, one fork/join", True),
-         ("MCIdentity_q2.cfg", WORLD4, "4 delegates + stranger, <=2 changes, <=2 actions each, one fork", False)]
+         ("MCIdentity_q2.cfg", WORLD4, "4 delegates + stranger, <=2 changes, <=2 actions each, one fork", False),
+         ("MCIdentity_q3.cfg", WORLD2, "2 delegates + stranger, <=3 changes, 1 action each, one fork/join (adoption, then a smaller delegate set)", True)]
 THOROUGH = QUICK + [
     ("MCIdentity_t0.cfg", WORLD4, "4 delegates + stranger, <=3 changes, 1 action each, one fork/join, two proposable documents", True),
     ("MCIdentity_t.cfg", WORLD2, "2 delegates + stranger, <=4 changes, 1 action each, one fork/join (delegate-set changes)", True),
